@@ -64,6 +64,7 @@ def run(check, prog):
     grid(check, prog)
     accumulator(check, prog)
     load_average(check, prog)
+    save_dispatch(check, prog)
 
 
 def metadata_edit(check, prog):
@@ -95,6 +96,56 @@ def metadata_edit(check, prog):
     check.require(ok, 'U1-new-image', 'update_metadata result',
                   'the result is built on a.copy()', loc,
                   fail_detail='result is rooted at %s' % show(root)[:100])
+    # the edit itself: attrs := updated(copy.attrs, {field: argument of that name})
+    fd_u = prog.func(MD + 'update_metadata')
+    a_ = sym(fd_u.args.args[0].arg)
+    cp = intern(('call', ('attr', a_, 'copy'), (), ()))
+    st = [e for e in it.effects if e['kind'] == 'setattr' and e['attr'] == 'attrs']
+    ok = len(st) == 1 and st[0]['base'] == cp and not st[0]['cond']
+    detail = '%d stores to .attrs' % len(st)
+    if ok:
+        val = st[0]['value']
+        val = val[2] if val[0] == 'copy' else val
+        ok = val[0] == 'call' and val[1] == 'holopy.core.utils.updated' and \
+            len(val[2]) == 2 and val[2][0] == ('attr', cp, 'attrs') and \
+            val[2][1][0] == 'dict' and not val[3]
+        detail = 'attrs := %s' % show(val)[:160]
+        if ok:
+            d = {k[1]: x for k, x in val[2][1][1] if k[0] == 'const'}
+            fields = ['medium_index', 'illum_wavelen', 'illum_polarization', 'noise_sd']
+            ok = sorted(d) == sorted(fields) and len(val[2][1][1]) == 4
+            for f in fields if ok else []:
+                x = d[f]
+                arg = sym(f)
+                if x[0] == 'call' and x[1] == MD + 'dict_to_array':
+                    # dict_to_array(schema <- the image, inval <- the argument)
+                    okx = len(x[2]) == 2 and x[2][0] == a_
+                    x = x[2][1] if okx else x
+                else:
+                    okx = f == 'medium_index'
+                if f == 'illum_polarization':
+                    okx = okx and x == ('call', MD + 'to_vector', (arg,), ())
+                else:
+                    okx = okx and x == arg
+                if not okx:
+                    ok = False
+                    detail = 'field %s is set from %s' % (f, show(d[f])[:100])
+    check.require(ok, 'U1-only-named-fields', 'update_metadata fields',
+                  'attrs of the copy := updated(old attrs, {medium_index, illum_wavelen, '
+                  'illum_polarization (normalised), noise_sd <- the argument of the '
+                  'same name})', loc, fail_detail=detail)
+    fill = [e for e in it.effects if e['kind'] == 'setitem' and e['value'] == NONE]
+    ok = len(fill) == 4 and all(
+        len(e['cond']) == 1 and e['cond'][0][1] is False and
+        e['cond'][0][0][0] == 'call' and e['cond'][0][0][1] == 'hasattr' and
+        e['cond'][0][0][2][1] == e['key'] for e in fill) and \
+        sorted(e['key'][1] for e in fill) == sorted(
+            ['medium_index', 'illum_wavelen', 'illum_polarization', 'noise_sd'])
+    check.require(ok, 'U1-only-named-fields', 'update_metadata missing fields',
+                  'a field the image lacks altogether is created as None -- and only '
+                  'then', loc, fail_detail='fills: %s' % [
+                      (show(e['key']), [(show(t)[:40], p) for t, p in e['cond']])
+                      for e in fill])
     # updated(): only non-None values replace existing ones
     q = 'holopy.core.utils.updated'
     fd = prog.func(q)
@@ -293,6 +344,9 @@ def grid(check, prog):
     loc = prog.loc(q, fd)
 
     def decide(t):
+        # per-axis shape and spacing here; scalar spacings are covered end to
+        # end through data_grid below (a scalar's "component k" is the scalar:
+        # np.repeat(s, 2)[k] folds to s[k // 2])
         if t[0] == 'call' and t[1] == 'numpy.isscalar':
             return False
         return None
@@ -330,6 +384,60 @@ def grid(check, prog):
     check.require(ok, 'U3-pixel-grid', 'data_grid',
                   'coordinates come from make_coords(arr.shape, spacing, z)',
                   prog.loc(q, fd))
+    # end to end, for scalar and pair spacings, with and without the added z axis
+    import itertools
+    P = {a.arg: sym(a.arg) for a in fd.args.args}
+    rows = 0
+    badrow = None
+    for scalar_sp, scalar_z in itertools.product((True, False), repeat=2):
+        def decide2(t, scalar_sp=scalar_sp, scalar_z=scalar_z):
+            if t[0] == 'call' and t[1] == 'numpy.isscalar' and len(t[2]) == 1:
+                a0 = t[2][0]
+                if a0 == P['z']:
+                    return scalar_z
+                if any(x == P['spacing'] for x in subterms(a0)):
+                    return scalar_sp
+                if any(x[0] == 'attr' and x[2] == 'shape' for x in subterms(a0)):
+                    return False
+            if t[0] == 'cmp' and t[2] == P['spacing'] and t[3] == NONE:
+                return t[1] == 'is not'
+            if t[0] == 'cmp' and t[2] == P['extra_dims'] and t[3] == NONE:
+                return t[1] == 'is'
+            if t[0] == 'cmp' and t[2] == ('call', 'len', (P['arr'],), ()):
+                return True
+            return None
+        it2 = Interp(prog, max_depth=2, decide=decide2, opaque=[
+            MD + 'update_metadata', 'holopy.core.utils.ensure_array'])
+        r2 = it2.analyze(q)
+        da2 = [c for c in it2.calls if c['name'] == 'xarray.DataArray']
+        if len(da2) != 1:
+            badrow = 'no single DataArray construction'
+            break
+        co = kw_of(da2[0], 'coords')
+        arr_t = da2[0]['args'][0] if da2[0]['args'] else None
+        want_arr = intern(('call', 'numpy.expand_dims', (P['arr'],),
+                           (('axis', num(0)),))) if scalar_z else P['arr']
+        if co is None or co[0] != 'dict' or arr_t != want_arr:
+            badrow = 'array %s, coords %s' % (show(arr_t)[:60] if arr_t else None,
+                                              show(co)[:80] if co else None)
+            break
+        d = {k[1]: x for k, x in co[1] if k[0] == 'const'}
+        env = {'A': want_arr, 'spacing': P['spacing']}
+        wx = expr_term(prog, 'np.arange(A.shape[1]) * spacing[0]', env)
+        wy = expr_term(prog, 'np.arange(A.shape[2]) * spacing[%d]' % (
+            0 if scalar_sp else 1), env)
+        rows += 1
+        if not ('x' in d and 'y' in d and canon.equal(d['x'], wx) and
+                canon.equal(d['y'], wy)):
+            badrow = '%s spacing%s: x = %s, y = %s' % (
+                'scalar' if scalar_sp else 'pair', ', scalar z' if scalar_z else '',
+                canon.show(d.get('x', NONE))[:80], canon.show(d.get('y', NONE))[:80])
+            break
+    check.require(badrow is None, 'U3-pixel-grid', 'data_grid end to end',
+                  'for scalar and per-axis spacings, with and without the added z '
+                  'axis: x_i = i * s_x over axis 1, y_j = j * s_y over axis 2 of the '
+                  'array that is stored (%d rows)' % rows, prog.loc(q, fd),
+                  fail_detail=badrow)
     da = [c for c in it.calls if c['name'] == 'xarray.DataArray']
     ok = len(da) == 1 and kw_of(da[0], 'dims') is not None
     if ok:
@@ -455,6 +563,7 @@ def load_average(check, prog):
                                                          ('const', 'z')))
     check.require(ok, 'U4-relative-noise', 'load_average noise_sd',
                   'noise_sd = mean over pixels of std / mean', loc)
+    wiring_load_average(check, prog, it, res, fd, loc)
     # crop: each axis uses its own spacing
     isel = [x for x in subterms(res.ret) if x[0] == 'call' and isinstance(x[1], tuple)
             and x[1][0] == 'attr' and x[1][2] == 'isel']
@@ -497,3 +606,193 @@ def load_average(check, prog):
         check.error('load_average: cannot resolve which spacing component divides the '
                     '%s extent (%s)' % (ax, d))
     check.floor('crop extents in load_average', found, 2)
+
+
+def save_dispatch(check, prog):
+    """save(): TIFF names go to save_image, objects with their own saver use it,
+    images are written to HDF5 *with their packed attrs*, everything else is
+    serialised as text."""
+    q = IO + 'save'
+    fd = prog.func(q)
+    loc = prog.loc(q, fd)
+    outf, obj = [sym(a.arg) for a in fd.args.args[:2]]
+    it = Interp(prog, max_depth=1, opaque=[IO + 'pack_attrs', IO + 'save_image',
+                                           IO + 'default_extension',
+                                           'holopy.core.io.serialize.save'])
+    res = it.analyze(q)
+    isstr = intern(('call', 'isinstance', (outf, ('extref', 'str')), ()))
+    own = intern(('call', 'hasattr', (obj, ('const', '_save')), ()))
+    img = intern(('call', 'hasattr', (obj, ('const', 'to_dataset')), ()))
+
+    def calls(name):
+        return [c for c in it.calls if c['name'] == name]
+
+    def conds(c):
+        return [(t, p) for t, p in c['cond']]
+    # TIFF
+    si = calls(IO + 'save_image')
+    ok = len(si) == 1 and tuple(si[0]['args']) == (outf, obj)
+    if ok:
+        cs = conds(si[0])
+        ok = len(cs) == 2 and cs[0] == (isstr, True) and cs[1][1] is True and \
+            cs[1][0][0] == 'cmp' and cs[1][0][1] == 'in' and \
+            any(x[0] == 'call' and x[1] == 'os.path.splitext' and x[2] == (outf,)
+                for x in subterms(cs[1][0][2]))
+        rets = [o for o in res.outcomes if o.kind == 'return' and
+                [(t, p) for t, p in o.cond] == cs]
+        ok = ok and len(rets) == 1
+    check.require(ok, 'U2-save-dispatch', 'save [image file name]',
+                  'a name with a TIFF extension -> save_image(outf, obj), nothing else',
+                  loc)
+    sv = calls('._save')
+    ok = len(sv) == 1 and tuple(sv[0]['args']) == (obj, outf) and \
+        conds(sv[0]) == [(own, True)]
+    check.require(ok, 'U2-save-dispatch', 'save [own saver]',
+                  'an object with _save is saved by obj._save(outf)', loc)
+    ss = calls('holopy.core.io.serialize.save')
+    ok = len(ss) == 1 and tuple(ss[0]['args']) == (outf, obj) and \
+        conds(ss[0]) == [(own, False), (img, False)]
+    check.require(ok, 'U2-save-dispatch', 'save [other objects]',
+                  'anything else is serialised as text: serialize.save(outf, obj)', loc)
+    nc = calls('.to_netcdf')
+    ok = len(nc) == 1 and conds(nc[0]) == [(own, False), (img, True)]
+    detail = '%d to_netcdf calls' % len(nc)
+    if ok:
+        ds, fname = nc[0]['args'][0], nc[0]['args'][1] if len(nc[0]['args']) > 1 else None
+        cpy = intern(('call', ('attr', obj, 'copy'), (), ()))
+        ok = fname == ('call', IO + 'default_extension', (outf,), ()) and \
+            dict(nc[0]['kwargs']).get('engine') == ('const', 'h5netcdf') and \
+            ds[0] == 'call' and isinstance(ds[1], tuple) and ds[1][2] == 'to_dataset'
+        detail = 'writes %s to %s' % (show(ds)[:80], show(fname)[:60] if fname else None)
+        if ok:
+            recv = ds[1][1]
+            # the dataset is made from the copy carrying the packed attrs
+            okp = recv[0] == 'upd' and recv[2] == 'attr' and recv[3] == 'attrs'
+            if okp:
+                pk = recv[4][2] if recv[4][0] == 'copy' else recv[4]
+                okp = pk[0] == 'call' and pk[1] == IO + 'pack_attrs' and len(pk[2]) == 1
+                if okp:
+                    src = pk[2][0]
+                    leaves = set()
+
+                    def walk(t):
+                        if t[0] == 'ite':
+                            walk(t[2])
+                            walk(t[3])
+                        elif t[0] == 'upd' and t[2] == 'attr' and t[3] == 'name':
+                            walk(t[1])
+                        else:
+                            leaves.add(t)
+                    walk(src)
+                    okp = leaves == {cpy}
+                    base = recv[1]
+                    leaves.clear()
+                    walk(base)
+                    okp = okp and leaves == {cpy}
+            ok = okp
+            detail = 'the dataset is made from %s' % show(recv)[:160]
+    check.require(ok, 'U2-save-dispatch', 'save [image]',
+                  'an image is copied, its attrs replaced by pack_attrs(copy), and the '
+                  'copy\'s dataset written with h5netcdf to default_extension(outf)',
+                  loc, fail_detail=detail)
+    nm = [e for e in it.effects if e['kind'] == 'setattr' and e['attr'] == 'name']
+    ok = len(nm) == 1 and nm[0]['cond'][-1][1] is True and \
+        nm[0]['cond'][-1][0][0] == 'cmp' and nm[0]['cond'][-1][0][1] == 'is' and \
+        nm[0]['cond'][-1][0][3] == NONE and nm[0]['cond'][-1][0][2][0] == 'attr' and \
+        nm[0]['cond'][-1][0][2][2] == 'name'
+    check.require(ok, 'U2-save-dispatch', 'save [default name]',
+                  'an unnamed image is named after the file -- a given name is kept',
+                  loc)
+
+
+def bind_fn(prog, qual, args, kwargs, skip_self=False):
+    fd = prog.func(qual)
+    names = [a.arg for a in fd.args.args]
+    if skip_self:
+        names = names[1:]
+    out = dict(zip(names, args))
+    out.update(dict(kwargs))
+    return out
+
+
+def wiring_load_average(check, prog, it, res, fd, loc):
+    P = {a.arg: sym(a.arg) for a in fd.args.args}
+    refimg = P['refimg']
+
+    def calls(name):
+        return [c for c in it.calls if c['name'] == name]
+    # every file is loaded with the spacing and channel selection and pushed
+    li = calls(IO + 'load_image')
+    pu = calls(IO + 'Accumulator.push')
+    ok = len(li) == 1 and len(pu) == 1
+    detail = '%d load_image, %d push calls' % (len(li), len(pu))
+    if ok:
+        b = bind_fn(prog, IO + 'load_image', li[0]['args'], li[0]['kwargs'])
+        inf = b.get('inf')
+        files = inf[1] if inf is not None and inf[0] == 'elem' else None
+        okf = files is not None and any(x == P['filepath'] for x in subterms(files))
+        sp = b.get('spacing')
+        oks = sp is not None and any(x == P['spacing'] for x in subterms(sp)) and \
+            bool(calls_in(sp, MD + 'get_spacing'))
+        ch = b.get('channel')
+        okc = ch is not None and any(x == P['channel'] for x in subterms(ch))
+        inloop = any(t[0] == 'loop-iter' for t, p in li[0]['cond'])
+        okp = len(pu[0]['args']) == 2 and pu[0]['args'][1][0] == 'call' and \
+            pu[0]['args'][1][1] == IO + 'load_image' and \
+            any(t[0] == 'loop-iter' for t, p in pu[0]['cond'])
+        ok = okf and oks and okc and inloop and okp
+        detail = 'load_image(%s)' % ', '.join('%s=%s' % (k, show(v)[:50])
+                                              for k, v in b.items())
+    check.require(ok, 'U4-every-file-averaged', 'load_average loop',
+                  'every file of the list is loaded (inf <- the file, spacing <- the '
+                  'spacing, channel <- the channel selection) and pushed', loc,
+                  fail_detail=detail)
+    # metadata donor and final update
+    cm = calls(MD + 'copy_metadata')
+    notnone = intern(('cmp', 'is not', refimg, NONE))
+    isnone = intern(('cmp', 'is', refimg, NONE))
+    ok = len(cm) == 1
+    if ok:
+        b = bind_fn(prog, MD + 'copy_metadata', cm[0]['args'], cm[0]['kwargs'])
+        cs = [(t, p) for t, p in cm[0]['cond']]
+        ok = b.get('old') == refimg and bool(calls_in(b.get('data', NONE), 'mean')) and \
+            not calls_in(b.get('data', NONE), 'std') and \
+            b.get('do_coords') == FALSE and cs in ([(notnone, True)], [(isnone, False)])
+    check.require(ok, 'U4-metadata-from-reference', 'load_average copy_metadata',
+                  'with a reference image: copy_metadata(old <- refimg, data <- the '
+                  'mean image, do_coords=False)', loc)
+    um = calls(MD + 'update_metadata')
+    ok = len(um) == 1 and not um[0]['cond']
+    detail = ''
+    if ok:
+        b = bind_fn(prog, MD + 'update_metadata', um[0]['args'], um[0]['kwargs'])
+        ok = bool(calls_in(b.get('a', NONE), 'mean')) and \
+            all(b.get(k) == P[k] for k in ('medium_index', 'illum_wavelen',
+                                           'illum_polarization'))
+        nz = b.get('noise_sd')
+        from hpstatic.logic import select
+        ok = ok and nz is not None and nz[0] == 'ite' and nz[3] == P['noise_sd']
+        detail = 'update_metadata(%s)' % ', '.join('%s=%s' % (k, show(v)[:40])
+                                                   for k, v in b.items())
+    check.require(ok, 'U4-explicit-values-win', 'load_average update_metadata',
+                  'the result is the mean image updated with the optics given as '
+                  'arguments, each in its own slot; a given noise_sd is kept', loc,
+                  fail_detail=detail)
+    # no images -> LoadError, and only then
+    le = [o for o in res.raises]
+    ok = len(le) == 1 and len(le[0].cond) == 1 and le[0].cond[0][1] is True
+    if ok:
+        t = le[0].cond[0][0]
+        from .common import lt_form
+        f = lt_form(t)
+        ok = f is not None and f[0] == '<' and f[2] == num(1) and \
+            f[1][0] == 'call' and f[1][1] == 'len'
+    check.require(ok, 'U4-refuses-only-empty-lists', 'load_average',
+                  'LoadError is raised iff there is no image to average', loc)
+    # cropped images get the reference coordinates
+    st = [e for e in it.effects if e['kind'] == 'setitem' and
+          e['key'] in (('const', 'x'), ('const', 'y'))]
+    ok = len(st) == 4 and all(e['value'] == ('attr', refimg, e['key'][1]) for e in st)
+    check.require(ok, 'U4-crop-coordinates', 'load_average',
+                  'after cropping, mean and std images carry the reference image\'s '
+                  'x and y coordinates', loc)
